@@ -200,7 +200,12 @@ def check(prog, rep, tier):
                     basename = [n for n in walk(a) if n[0] == "call" and n[1][-1] in ("basename",)]
                     resolved = any(n[0] == "call" and n[1][0] == "m" and n[1][2] == "resolve" for n in walk(a)) or \
                         (strip_epochs(a)[0] == "f" and strip_epochs(a)[1] == SELF and strip_epochs(a)[2] in resolved_fields)
-                    if lossy or basename:
+                    wrapped = [n for n in walk(a) if n[0] == "ret" and "@" in n[1]]
+                    if wrapped:
+                        rep.bad("C11.path-provenance", f"{CTX}.{fname}", f"{what}({nshow(wrapped[0])})",
+                                f"{what} receives the result of {wrapped[0][1]}: a wrapping decorator (e.g. a cache) makes the resolved path depend on "
+                                "earlier calls instead of the current working directory", e.where())
+                    elif lossy or basename:
                         rep.bad("C11.path-provenance", f"{CTX}.{fname}", f"{what}({nshow(lossy[0] if lossy else basename[0])})",
                                 f"{what} receives {nshow(a)}: the directory part of the resolved path is dropped, so the file is looked up relative to the "
                                 "current working directory (reopen/export fail or hit another file after chdir)", e.where())
@@ -228,6 +233,17 @@ def check(prog, rep, tier):
 from ..selftest import Mutant, del_stmt, insert_stmt, replace_class_const, replace_expr, replace_stmt
 
 _B = "blooms/bloom.py"
+
+
+def _decorate(fname, deco_src):
+    def edit(tree):
+        for n in tree.body:
+            if isinstance(n, _ast.FunctionDef) and n.name == fname:
+                n.decorator_list.append(_ast.parse(deco_src, mode="eval").body)
+                tree.body.insert(0, _ast.parse("from functools import lru_cache").body[0])
+                return True
+        return False
+    return edit
 MUTANTS = [
     Mutant("__update: delete self._bloom.flush()", _B, del_stmt("BloomFilterOnDisk", "__update", "self._bloom.flush()"), rule="C11.write-order"),
     Mutant("close: delete self.__update()", _B, del_stmt("BloomFilterOnDisk", "close", "self.__update()"), rule="C11.write-order"),
@@ -241,5 +257,6 @@ MUTANTS = [
     Mutant("D2 re-introduced", _B, del_stmt("BloomFilterOnDisk", "_load", "self._els_added = els_added"), rule="C11.reload"),
     Mutant("D12 re-introduced: clear without sync", _B, del_stmt("BloomFilterOnDisk", "clear", "self.__update()"), rule="C11.mutators"),
     Mutant("export truncates the file to the bit array", _B, insert_stmt("BloomFilterOnDisk", "export", "self.__file_pointer.truncate(self.bloom_length)"), rule="C11.file-writers"),
+    Mutant("resolve_path memoised with lru_cache", "utilities.py", _decorate("resolve_path", "lru_cache(maxsize=256)"), rule="C11.path"),
     Mutant("close: file closed before the final sync", _B, replace_stmt("BloomFilterOnDisk", "close", "self.__update()", "self._bloom.close()\nself.__update()"), rule="C11.write-order"),
 ]
